@@ -8,6 +8,11 @@ from ..cfront import walk, strip, callee_name, call_args, render, line_of, is_as
 from . import bytesacct, serial
 
 
+def _deref(txt):
+    """(&blob).x and (*p).x written by helper inlining read as blob.x / p.x"""
+    return re.sub(r'\(?[&*]\(?(\w+)\)?\)?\.', r'\1.', txt)
+
+
 def rule_append_protocol(ctx):
     tu = cfront.load_tu('simulationarchive.c')
     fn = tu.func('reb_simulation_save_to_file')
@@ -18,7 +23,21 @@ def rule_append_protocol(ctx):
             app = n['inner'][2]
     anchor(app is not None, 'reb_simulation_save_to_file: if (stat(filename) < 0) {create} else {append}')
     events = []   # in source order: ('write', what, length), ('set', lvalue, rhs), ('seek'...)
-    for e in walk(app):
+    from .. import normal
+    from . import extents
+    helpers = {f_['name']: f_ for f_ in normal.with_new_helpers(tu, 'reb_simulation_save_to_file')[1:]}
+    L = extents.lets(fn)
+    for h_ in helpers.values():
+        for k_, v_ in extents.lets(h_).items():
+            L.setdefault(k_, v_)
+
+    def stream(node, depth=0):
+        """nodes in source order, with the bodies of helpers split off from the function spliced in at their call sites"""
+        for e in walk(node):
+            yield e
+            if e.get('kind') == 'CallExpr' and callee_name(e) in helpers and depth < 3:
+                yield from stream(cfront.body(helpers[callee_name(e)]), depth + 1)
+    for e in stream(app):
         if e.get('kind') == 'CallExpr':
             nm = callee_name(e)
             a = call_args(e)
@@ -30,7 +49,7 @@ def rule_append_protocol(ctx):
                     tag = 'trailer'
                 elif 'struct reb_binary_field' in ty:
                     tag = 'header'
-                elif render(what) == 'buf_diff':
+                elif render(what) == 'buf_diff' or ('char' in ty and 'diff' in render(what)):
                     tag = 'delta'
                 ln = render(a[1])
                 if render(a[2]) != '1':
@@ -39,14 +58,18 @@ def rule_append_protocol(ctx):
             elif nm in ('fseek', 'fread', 'reb_binary_diff', 'reb_simulation_warning', 'reb_simulation_save_to_stream'):
                 events.append(('call', nm, render(e), line_of(e)))
         elif is_assign(e):
-            events.append(('set', render(e['inner'][0]), render(e['inner'][1]), line_of(e), e['opcode']))
+            events.append(('set', _deref(render(e['inner'][0])), _deref(render(e['inner'][1])), line_of(e), e['opcode']))
         elif e.get('kind') == 'UnaryOperator' and e.get('opcode') in ('++',):
-            events.append(('set', render(e['inner'][0]), render(e['inner'][0]) + '+1', line_of(e), '++'))
+            events.append(('set', _deref(render(e['inner'][0])), _deref(render(e['inner'][0])) + '+1', line_of(e), '++'))
+    # events are made unique by their position (inlined helper statements all carry the line of the call site)
+    events = [ev + (k_,) for k_, ev in enumerate(events)]
     writes = [ev for ev in events if ev[0] == 'write']
     n = 0
     where = 'src/simulationarchive.c reb_simulation_save_to_file (append branch)'
     order = [w[1] for w in writes]
     n += 1
+    if sorted(order) != sorted(['trailer', 'delta', 'header', 'trailer']):
+        raise AnalysisError('R06.2: the writes of the append path (%s) are not recognised as [trailer, delta, END header, trailer] - the path was restructured beyond what the rule can follow' % order)
     if order != ['trailer', 'delta', 'header', 'trailer']:
         ctx.report('R06.2', 'append:order', where, 'the append writes are %s, not [previous trailer (in place), delta, END header, new trailer]' % order)
         ctx.covered('R06.2', 'append protocol', n, floor=1)
@@ -69,13 +92,15 @@ def rule_append_protocol(ctx):
     # END header between delta and trailer has size 0 and type end
     mids = [ev for ev in events[events.index(writes[1]):events.index(writes[2])] if ev[0] == 'set']
     n += 1
-    if not any(ev[1] == 'field.size' and ev[2] == '0' for ev in mids) or not any(ev[1] == 'field.type' and 'fd_end' in ev[2] for ev in mids):
+    if not any(ev[1].endswith('field.size') and ev[2] == '0' for ev in mids) or not any(ev[1].endswith('field.type') and 'fd_end' in extents.resolve(ev[2], L) for ev in mids):
         ctx.report('R06.2', 'append:end', where, 'the header written after the delta is not the END marker with size 0 (%s)' % [(ev[1], ev[2]) for ev in mids])
     # new trailer
     last = [ev for ev in events[events.index(writes[2]):i3] if ev[0] == 'set']
     n += 1
     d = {ev[1]: (ev[2], ev[4]) for ev in last}
-    if d.get('blob.offset_prev', ('',))[0] != 'blob.offset_next':
+    d = {k_.split('.', 1)[-1] if k_.count('.') > 1 else k_: v_ for k_, v_ in d.items()}
+    d = {('blob.' + k_.split('.')[-1]) if k_.split('.')[-1] in ('offset_prev', 'offset_next', 'index') else k_: v_ for k_, v_ in d.items()}
+    if d.get('blob.offset_prev', ('',))[0].split('.')[-1] != 'offset_next':
         ctx.report('R06.2', 'append:offset_prev', where, 'the new trailer does not record offset_prev = size of the snapshot just written (%s)' % (d.get('blob.offset_prev'),))
     if d.get('blob.offset_next', ('',))[0] != '0':
         ctx.report('R06.2', 'append:last', where, 'the new trailer is not marked as the last one (offset_next = 0)')
@@ -94,7 +119,9 @@ def rule_append_protocol(ctx):
         ctx.report('R06.2', 'append:repair', where, 'a corrupt tail is not skipped (no seek to the last valid trailer) before appending')
     sets_fc = [ev for ev in events[:i0] if ev[0] == 'set' and ev[1] == 'file_corrupt']
     if len(sets_fc) < 3:
-        ctx.report('R06.2', 'append:check', where, 'the consistency check of the existing tail before appending is missing or reduced (%d tests)' % len(sets_fc))
+        # how the tail is validated is not pinned down by this rule (flags, helper functions, merged conditions are all fine):
+        # when the three original tests are not found in their original form the rule cannot tell a reduced check from a rewritten one
+        ctx.note('R06.2 tail validation before appending is not in the form the rule knows (%d assignments of file_corrupt): not decided' % len(sets_fc))
     ctx.covered('R06.2', 'append protocol: write order, patched offset_next == bytes written before the next trailer, END marker, new trailer, repair before append', n, floor=5,
                 samples=['writes: %s' % [(w[1], w[2]) for w in writes], 'offset_next = %s' % (sets_before[-1][2] if sets_before else None)])
 
